@@ -1,6 +1,12 @@
 """Per-property configuration of ./check (which build configurations run, floors, layers)."""
 
 PROPS = {
+    "C01": dict(configs=["ring", "aws"], floor=1000),
+    "C02": dict(configs=["ring", "aws"], floor=1000),
+    "C04": dict(configs=["ring", "aws"], floor=1000),
+    "C05": dict(configs=["ring", "aws"], floor=1000),
+    "C07": dict(configs=["ring", "aws"], floor=1000),
+    "C08": dict(configs=["ring", "aws"], floor=1000),
     "C09": dict(configs=["ring"], configs_thorough=["ring", "aws"], floor=1000, exhaustive_thorough=False),
     "C13": dict(configs=["ring"], configs_thorough=["ring", "aws"], floor=1000000, exhaustive_thorough=True),
     "C20": dict(configs=["ring"], configs_thorough=["ring", "aws"], floor=100000, exhaustive_thorough=True),
